@@ -234,6 +234,20 @@ func expandConds(cs []Cond) []Cond {
 					nonConst = append(nonConst, i)
 				}
 			}
+			// all edges constant: the condition pins down which edge was taken
+			if len(nonConst) == 0 {
+				match := -1
+				n := 0
+				for i, e := range ph.Edges {
+					if k, ok := e.(*ssa.Const); ok && constant.BoolVal(k.Value) == c.Pol {
+						match = i
+						n++
+					}
+				}
+				if n == 1 {
+					out = append(out, CondsOfEdge(ph.Block().Preds[match], ph.Block())...)
+				}
+			}
 			if allOther && len(nonConst) == 1 {
 				i := nonConst[0]
 				out = append(out, expandConds([]Cond{{ph.Edges[i], c.Pol, c.If}})...)
